@@ -39,7 +39,7 @@ def read_lammpslog(filename) -> [pd.DataFrame]:
 
     final = []
     for i in range(linenum.shape[0]):
-        data = pd.read_csv(filename, sep=r"\s+", skiprows=start[i], nrows=linenum[i])
+        data = pd.read_csv(filename, sep=r"\s+", skiprows=start[i], nrows=linenum[i], quoting=3)
         final.append(data)
         del data
     return final
